@@ -21,4 +21,53 @@ def toLayFields : List (String × CGen.Ty) → Option (List Ty)
     | _, _ => none
 end
 
+mutual
+/-- EVERY type of the C generator as a layout-model type: a reference slot is an opaque 8-byte word (the relative offset), a union
+reference an opaque 16-byte word (relative offset + member index).  What the word MEANS depends on where the slot sits (C08); where it
+sits, how large the enclosing object is and what surrounds it is pure layout - everything `Lay` proves applies. -/
+def toLayR : CGen.Ty → Ty
+ | .scalar s => .scalar s.size
+ | .string => .string
+ | .struct _ fs => .struct (toLayRFields fs)
+ | .array it sh ord => .array (toLayR it) sh ord
+ | .ref _ => .scalar 8
+ | .unionref _ _ => .scalar 16
+def toLayRFields : List (String × CGen.Ty) → List Ty
+ | [] => []
+ | (_, t) :: r => toLayR t :: toLayRFields r
+end
+
+mutual
+/-- a value with every reference word blanked (used to compare what the proof model's reader decodes from the real bytes of an object
+that holds references with the value it was constructed from: the words themselves are position dependent) -/
+def maskRefs : CGen.Ty → Val → Val
+ | .ref _, _ => .bits 0
+ | .unionref _ _, _ => .bits 0
+ | .struct _ fs, .struct vs => .struct (maskRefsFields fs vs)
+ | .array it _ _, .arr sh items => .arr sh (maskRefsItems it items)
+ | _, v => v
+def maskRefsFields : List (String × CGen.Ty) → List Val → List Val
+ | (_, t) :: r, v :: vs => maskRefs t v :: maskRefsFields r vs
+ | _, vs => vs
+def maskRefsItems : CGen.Ty → List Val → List Val
+ | _, [] => []
+ | t, v :: vs => maskRefs t v :: maskRefsItems t vs
+end
+
+mutual
+/-- the first value with every reference word taken from the second (same structure) -/
+def fillRefs : CGen.Ty → Val → Val → Val
+ | .ref _, _, w => w
+ | .unionref _ _, _, w => w
+ | .struct _ fs, .struct vs, .struct ws => .struct (fillRefsFields fs vs ws)
+ | .array it _ _, .arr sh items, .arr _ ws => .arr sh (fillRefsItems it items ws)
+ | _, v, _ => v
+def fillRefsFields : List (String × CGen.Ty) → List Val → List Val → List Val
+ | (_, t) :: r, v :: vs, w :: ws => fillRefs t v w :: fillRefsFields r vs ws
+ | _, vs, _ => vs
+def fillRefsItems : CGen.Ty → List Val → List Val → List Val
+ | t, v :: vs, w :: ws => fillRefs t v w :: fillRefsItems t vs ws
+ | _, vs, _ => vs
+end
+
 end Lay
